@@ -7,6 +7,7 @@ import (
 	"encoding/json"
 	"fmt"
 	"os"
+	"runtime"
 	"runtime/debug"
 	"runtime/pprof"
 
@@ -48,6 +49,15 @@ func main() {
 		f, _ := os.Create(pf)
 		pprof.StartCPUProfile(f)
 		defer pprof.StopCPUProfile()
+	}
+	if pf := os.Getenv("VH_MEMPROF"); pf != "" {
+		defer func() {
+			runtime.GC()
+			f, _ := os.Create(pf)
+			pprof.WriteHeapProfile(f)
+			f.Close()
+			fmt.Fprintf(os.Stderr, "goroutines at exit: %d\n", runtime.NumGoroutine())
+		}()
 	}
 	switch mode {
 	case "serve":
